@@ -93,6 +93,7 @@ func rawQual(p *types.Package) string { return strings.TrimPrefix(p.Path(), modP
 
 var (
 	baselineFns       map[string]bool // nil: no baseline loaded
+	baselineFeatures  map[string][]string // baseline function -> feature set (callees, fields)
 	baselineTemplates = map[string]baseFn{}
 	baselinePath      string
 	fnAlias           = map[*ssa.Function]string{}
@@ -256,6 +257,7 @@ func applyBaseline(prog *ssa.Program, all map[*ssa.Function]bool) []string {
 		return nil
 	}
 	baselineFns = map[string]bool{}
+	baselineFeatures = map[string][]string{}
 	baselineStructNames = map[string]bool{}
 	for _, st := range bl.Structs {
 		baselineStructNames[st.Name] = true
@@ -267,6 +269,7 @@ func applyBaseline(prog *ssa.Program, all map[*ssa.Function]bool) []string {
 	baselineWrappers = map[string][]baseFn{}
 	for _, b := range bl.Funcs {
 		baselineFns[b.Name] = true
+		baselineFeatures[b.Name] = b.Features
 		if b.Bool != "" || b.Value != "" {
 			baselineTemplates[b.Name] = b
 		}
@@ -1039,4 +1042,59 @@ func asBaselineWrapper(R *Renderer, c *ssa.CallCommon) (string, []string, bool) 
 		}
 	}
 	return "", nil, false
+}
+
+// baselineCalled: did the baseline function `name` call `callee` (by its rendered name) when the
+// rule instances were confirmed?
+func baselineCalled(name, callee string) bool {
+	for _, f := range baselineFeatures[name] {
+		if f == "call:"+callee {
+			return true
+		}
+	}
+	return false
+}
+
+// issuerAllowed decides a who-may-call entry modulo functions introduced after the baseline:
+// fn is one of `allowed`, or fn is a fresh function every caller of which (through fresh
+// functions, at most four levels) is allowed itself or is a baseline function that already
+// reached one of the allowed issuers by a direct call (a flag specialised away, a function cut
+// in two: the caller's role has not changed).  A fresh function nobody calls is not allowed.
+func issuerAllowed(P *Prog, fn *ssa.Function, allowed []string, depth int) bool {
+	for fn.Parent() != nil {
+		fn = fn.Parent()
+	}
+	name := FnName(fn)
+	for _, a := range allowed {
+		if a == name {
+			return true
+		}
+	}
+	if !isFreshFn(fn) {
+		if depth == 0 {
+			return false
+		}
+		for _, a := range allowed {
+			if baselineCalled(name, a) {
+				return true
+			}
+		}
+		return false
+	}
+	if depth >= 4 {
+		return false
+	}
+	n := P.CG.Nodes[fn]
+	if n == nil || len(n.In) == 0 {
+		return false
+	}
+	for _, e := range n.In {
+		if e.Caller == nil || e.Caller.Func == nil {
+			return false
+		}
+		if !issuerAllowed(P, e.Caller.Func, allowed, depth+1) {
+			return false
+		}
+	}
+	return true
 }
